@@ -336,6 +336,15 @@ def union_compute_rng(W, cfg):
     W.require(W.unseeded_draws == 0, 'C11:no-draw-from-unseeded-generator',
               '%d draws from generators created without a seed' %
               W.unseeded_draws)
+    # the initial record is well-formed (C13)
+    from .union_steps import check_wellformed
+    W.require(len(U.bounds) == 1 and len(U.points_bounds) == 1 and
+              len(U.log_v_all) == 1 and len(U.block) == 1,
+              'C13:one-record-per-ellipsoid-after-compute', '')
+    W.require(bool(U.block[0]) == (n < 2 * U.n_points_min),
+              'C13:initial-may-split-flag',
+              '%d points, n_points_min %d, blocked %r' % (
+                  n, U.n_points_min, bool(U.block[0])))
     W.require(U.rng is rng, 'C11:bounds-share-the-given-generator', 'union')
     if U.cube is not None:
         W.require(U.cube.rng is rng, 'C11:bounds-share-the-given-generator',
@@ -343,10 +352,17 @@ def union_compute_rng(W, cfg):
     for b in U.bounds:
         W.require(b.rng is rng, 'C11:bounds-share-the-given-generator',
                   'member')
-    if len(pts) >= 2 * U.n_points_min:
+    if True:
         limit(rng, 6)
-        ok, r = call(W, 'C11:union-split-no-raise', lambda: U.split())
+        ok, r = call(W, 'C13:split-no-raise', lambda: U.split())
         if ok:
+            check_wellformed(W, U, '-after-compute-and-split')
+            if r:
+                for i in range(len(U.bounds)):
+                    W.require(len(U.points_bounds[i]) >= U.n_points_min,
+                              'C13:new-ellipsoid-has-minimum-points',
+                              'member %d has %d points' % (
+                                  i, len(U.points_bounds[i])))
             for b in U.bounds:
                 W.require(b.rng is rng,
                           'C11:bounds-share-the-given-generator',
